@@ -14,6 +14,14 @@ class XE(Exception):
     pass
 
 
+class FXE(XE):
+    """an exception object that is falsy (as error aggregates with __len__ == 0 are): the library must test
+    `is not None`, never truthiness"""
+
+    def __bool__(self):
+        return False
+
+
 def gen(rng, kinds=(0, 1, 2), dups=True):
     kind = rng.choice(kinds)
     npos = rng.randint(2, 5)
@@ -47,7 +55,7 @@ def execute(p, chooser):
 
     def exc(e):
         if e not in obs["excs"]:
-            obs["excs"][e] = XE("e%d" % e)
+            obs["excs"][e] = (FXE if e % 3 == 0 else XE)("e%d" % e)
         return obs["excs"][e]
 
     def main():
